@@ -9,6 +9,7 @@ from . import replyprops, msgprops
 
 THEOREMS = ["c14_published_names", "c14_same_variants", "c14_encoding", "c14_decoding", "c14_dispatch_target", "c14_entry_point_set",
             "c14_reply_acceptance", "c14_reply_names", "c14_reply_routing"]
+THEOREMS_T = ["c14_translated_repeatable_attributes_are_collected_in_order", "c14_translated_reordering_attributes_permutes_the_collected"]
 
 
 def permute(rng, p):
@@ -85,6 +86,10 @@ def check(run, replay=None):
                 "published lists, wrapper parts, entry points) compared between twins; reply tables (valid and invalid) and their "
                 "permutations: acceptance, set of handler names, method per outcome, data mode, trigger; non-trivial = distinct program")
     replyprops.preamble(run, "Props/C14", THEOREMS)
+    # strengthening tie: the attribute parser translated from the source (GenImpParse.v)
+    from . import libcommon
+    libcommon.regen_imp(run)
+    run.prove("Props/C14T", THEOREMS_T, strengthening=True)
     g = gen.ProgGen(rng)
     k = 4 if thorough else 2
     bases = [g.gen_contract() if i % 3 else g.gen_iface() for i in range(500 if thorough else 70)]
